@@ -1040,6 +1040,15 @@ func (s *Session) input(seg *segment) error {
 }
 
 func (s *Session) inputData(seg *segment) error {
+	if !s.isClient && seg.metadata.Protocol() == openSessionRequest && s.isState(sessionAttached) && len(seg.payload) > 0 {
+		// The session is refused below when the user has no quota left.
+		// In that case do not hand the piggybacked payload to the application.
+		if userName := s.UserName(); userName != "" {
+			if quotaOK, _ := s.checkQuota(userName); !quotaOK {
+				seg.payload = nil
+			}
+		}
+	}
 	switch s.transportProtocol {
 	case common.StreamTransport:
 		// Deliver the segment directly to recvQueue.
